@@ -71,8 +71,8 @@ func checkFor(prop string) ModelCheck {
 			},
 		}
 	case "C06":
-		p := prof("c06", map[Op]int{OpEntityAdd: 18, OpClose: 6, OpJoin: 8, OpCompAdd: 12, OpAction: 10, OpAsset: 10, OpSub: 8, OpNoTS: 1})
-		return ModelCheck{Prop: "C06", Part: "H", Profile: p,
+		p := prof("c06", map[Op]int{OpEntityAdd: 22, OpClose: 7, OpJoin: 8, OpCompAdd: 14, OpAction: 12, OpAsset: 12, OpSub: 6, OpTypeAdd: 10, OpNoTS: 1, OpEntityDel: 3})
+		return ModelCheck{Prop: "C06", Part: "H", Profile: p, Mutate: lateJoiner,
 			Rule: genRule + "departures by close, handler error, frame without timestamp and session switch; non-trivial = distinct script in which a leaver owns >=1 persistent and >=1 non-persistent entity with attachments while another member remains",
 			NT:   func(e *Exec, sc Script) bool { return lab(e, "departure_rich") },
 		}
@@ -118,7 +118,9 @@ func checkFor(prop string) ModelCheck {
 	case "C16":
 		p := prof("c16", map[Op]int{OpAction: 30, OpAsset: 18, OpEntityAdd: 14, OpEntityDel: 8, OpJoin: 7, OpClose: 4})
 		p.Modules = []string{"vikja", "odal"}
-		return ModelCheck{Prop: "C16", Part: "H", Profile: p,
+		p.FewTargets = true
+		p.MinSteps = 40
+		return ModelCheck{Prop: "C16", Part: "H", Profile: p, Mutate: lateJoiner,
 			Rule: genRule + "vikja+odal loaded, weights favour entity actions (timestamps 0, 1, 5, 7, 10, year 9999, -1; equal and decreasing) and asset adds; non-trivial = distinct script with an older action refused, an asset replaced and a later joiner handed the module state",
 			NT: func(e *Exec, sc Script) bool {
 				return lab(e, "action_older_refused", "asset_replaced", "join_existing_with_attachments")
@@ -239,4 +241,11 @@ func TestC08Burst(t *testing.T) {
 		sc.Steps = append(sc.Steps, Step{Conn: 1, Op: OpPing}, Step{Op: OpTick}, Step{Conn: 1, Op: OpEntityAdd})
 		return sc
 	})
+}
+
+// lateJoiner appends a newcomer to every script: a connection slot of its own
+// joins the oldest live session at the very end and is handed its state.
+func lateJoiner(sc *Script) {
+	sc.Steps = append(sc.Steps, Step{Conn: sc.Cfg.Conns, Op: OpJoin, Sess: Ref{Kind: SessLive, N: 0}})
+	sc.Cfg.Conns++
 }
